@@ -194,7 +194,7 @@ func c17TargetSel(r gen.R, ru *sl.Rule) *sl.Sel {
 	if gen.Chance(r, 0.5) {
 		return &sl.Sel{Var: "ARGS_GET", Kind: 1, Key: fmt.Sprintf("a%d", ru.ID), Excl: true}
 	}
-	return &sl.Sel{Var: gen.Pick(r, []string{"ARGS_GET", "ARGS"}), Kind: 2, Key: fmt.Sprintf("^a%d", ru.ID), Excl: true}
+	return &sl.Sel{Var: gen.Pick(r, []string{"ARGS_GET", "ARGS"}), Kind: 2, Key: fmt.Sprintf(gen.Pick(r, []string{"^a%d", "^a%d", "^\\D%d$", "^a%d\\b"}), ru.ID), Excl: true}
 }
 
 func c17GenMods(r gen.R, p *sl.Program) []c17Mod {
@@ -591,7 +591,10 @@ func c17CtlTarget(r gen.R, id int) *sl.Sel {
 	if gen.Chance(r, 0.6) {
 		return &sl.Sel{Var: "ARGS_GET", Kind: 1, Key: fmt.Sprintf("a%d", id), Excl: true}
 	}
-	return &sl.Sel{Var: gen.Pick(r, []string{"ARGS_GET", "ARGS"}), Kind: 2, Key: fmt.Sprintf("^[ab]%d$", id), Excl: true}
+	// regular-expression keys, some with escape classes (upper-case ones included: the text of a pattern is not
+	// something to fold)
+	pat := gen.Pick(r, []string{"^[ab]%d$", "^[ab]%d$", "^\\D%d$", "^[ab]\\d*%d$", "^\\S%d\\b", "^a%d\\B|^b\\d*%d$"})
+	return &sl.Sel{Var: gen.Pick(r, []string{"ARGS_GET", "ARGS"}), Kind: 2, Key: strings.ReplaceAll(pat, "%d", strconv.Itoa(id)), Excl: true}
 }
 
 // c17SingleID: the directive names exactly one id (no list, no range).
